@@ -71,6 +71,9 @@ pub struct NetDev {
     pub errors: Vec<String>,
 }
 
+/// flags, gso_type, hdr_len, gso_size, csum_start, csum_offset, num_buffers as the device writes them
+pub const RX_HDR: [u8; 12] = [1, 0, 0x34, 0x12, 0x78, 0x56, 0xbc, 0x9a, 0xf0, 0xde, 1, 0];
+
 impl NetDev {
     pub fn inject(&mut self, w: &mut World, qs: &mut Queues, pick: u16, len: u16) -> bool {
         if self.rx_held.is_empty() {
@@ -81,7 +84,8 @@ impl NetDev {
         let cap = c.writable_len().saturating_sub(self.hdr);
         let flen = (len as usize * (cap + 1)) >> 16;
         self.injected += 1;
-        let mut data = vec![0u8; self.hdr];
+        // a header with a recognisable value in every field
+        let mut data = RX_HDR[..self.hdr].to_vec();
         if self.hdr == 12 {
             data[10] = 1; // num_buffers
         }
@@ -360,12 +364,22 @@ fn run_ops(c: &NCase, mut d: Drv, dev: Shared<NetDev>, st: &mut Stats, buf_len: 
                 let flen = (*len as usize) % 1501;
                 seed += 1;
                 let mut buf = vec![0xffu8; hdr + flen].into_boxed_slice();
+                // the caller may put the frame in place before or after filling the header
+                let frame_first = *len & 0x800 != 0;
+                let frame: Vec<u8> = (0..flen).map(|k| fpat(seed + 2000, k) | 1).collect();
+                if frame_first {
+                    buf[hdr..].copy_from_slice(&frame);
+                }
                 let h = g!(what, r.fill_hdr(&mut buf));
                 if h != Ok(hdr) {
                     return Err(format!("{}: fill_buffer_header returned {:?}, header is {} bytes (VERSION_1 negotiated: {})", what, h, hdr, hdr == 12));
                 }
-                for (k, b) in buf[hdr..].iter_mut().enumerate() {
-                    *b = fpat(seed + 2000, k);
+                if frame_first {
+                    if buf[hdr..] != frame[..] {
+                        return Err(format!("{}: fill_buffer_header changed bytes after the {}-byte header (frame placed first)", what, hdr));
+                    }
+                } else {
+                    buf[hdr..].copy_from_slice(&frame);
                 }
                 let need = 1;
                 let full = raw_tx.len() + need > n;
@@ -539,6 +553,20 @@ fn run_ops(c: &NCase, mut d: Drv, dev: Shared<NetDev>, st: &mut Stats, buf_len: 
                         rx_next += 1;
                         if rb.packet_len() != frame.len() || rb.packet() != &frame[..] {
                             return Err(format!("{}: packet of {} bytes returned, device wrote a {}-byte frame (or contents differ)", what, rb.packet_len(), frame.len()));
+                        }
+                        // the header the caller can inspect is the one the device wrote (the legacy
+                        // form has no num_buffers field: it reads as 0)
+                        {
+                            use zerocopy::IntoBytes;
+                            let h = rb.header();
+                            let mut want = RX_HDR;
+                            if hdr != 12 {
+                                want[10] = 0;
+                                want[11] = 0;
+                            }
+                            if h.as_bytes() != &want[..] {
+                                return Err(format!("{}: header() = {:x?}, the device wrote {:x?} ({}-byte header)", what, h.as_bytes(), &RX_HDR[..hdr], hdr));
+                            }
                         }
                         if rb.as_bytes().len() != cap {
                             return Err(format!("{}: buffer of {} bytes, expected {}", what, rb.as_bytes().len(), cap));
